@@ -133,7 +133,22 @@ def instance_store(idx, cls, selfkey="self"):
         fi = idx.method(cls, "__init__")
     except AnalysisError:
         return {}
-    it = Interp(idx, types={selfkey: cls}, unknown_calls="residual")
+    from sa.absint import Obj
+
+    def _super_init(interp, call, recv, cargs, ckwargs):
+        # super().__init__(...) → the next __init__ in the MRO after the class whose __init__ is being interpreted, on the same instance
+        chain = [c for c in idx.mro(cls) if "__init__" in c.methods]
+        cur = interp.path.__dict__.setdefault("_init_depth", 0)
+        if cur + 1 < len(chain):
+            interp.path.__dict__["_init_depth"] = cur + 1
+            a2 = dict(ckwargs)
+            a2["__pos__"] = list(cargs)
+            interp.call_function(chain[cur + 1].methods["__init__"], a2, selfkey)
+            interp.path.__dict__["_init_depth"] = cur
+        return None
+
+    it = Interp(idx, types={selfkey: cls}, unknown_calls="residual",
+                handlers={"super": lambda i, c, r, a, k: Obj("__super__"), "__super__.__init__": _super_init})
     a = fi.node.args
     args = {p.arg: Residual(p.arg) for p in (a.args[1:] + a.kwonlyargs)}
     try:
@@ -288,3 +303,47 @@ def mutable_defaults(idx, rep, rid):
         rep.fail(rid, f"{fi.file}::{fi.qual} parameter {arg} has a mutable default", f"`{arg}={unparse(v)}` is created once and shared by every call that omits it: whatever one "
                  "member/run stores in it is seen by the next", where(fi, node))
     rep.check(len(funcs) > 1000 and not sites, rid, "csvpath::no mutable default arguments", f"{len(funcs)} functions scanned, {len(sites)} mutable defaults", "csvpath/")
+
+
+def _guard_flag_sites(funcs):
+    """functions that (1) leave early when a boolean attribute is set, (2) set it, do work, and (3) clear it outside a `finally`:
+    an exception in the work leaves the flag set and turns every later call into a silent no-op"""
+    out = []
+    for fi, node in funcs:
+        tested = set()
+        for n in ast.walk(node):
+            if isinstance(n, ast.If) and any(isinstance(x, ast.Return) for x in n.body):
+                for a in ast.walk(n.test):
+                    if isinstance(a, ast.Attribute):
+                        tested.add(unparse(a))
+        if not tested:
+            continue
+        finals = set()
+        for n in ast.walk(node):
+            if isinstance(n, ast.Try):
+                for s in n.finalbody:
+                    for x in ast.walk(s):
+                        if isinstance(x, ast.Assign):
+                            finals.update(unparse(t) for t in x.targets)
+        stores = {}
+        for n in ast.walk(node):
+            if isinstance(n, ast.Assign) and len(n.targets) == 1 and isinstance(n.targets[0], ast.Attribute) and isinstance(n.value, ast.Constant) and isinstance(n.value.value, bool):
+                stores.setdefault(unparse(n.targets[0]), []).append(n)
+        for k, sts in stores.items():
+            vals = {s.value.value for s in sts}
+            if k in tested and vals == {True, False} and k not in finals:
+                out.append((fi, node, k, sts[0]))
+    return out
+
+
+def guard_flags(idx, rep, rid):
+    probe = ast.parse("def f(self, m):\n    if self._busy:\n        return\n    self._busy = True\n    for l in self.ls:\n        l.update(m)\n    self._busy = False\n").body[0]
+    good = ast.parse("def f(self, m):\n    if self._busy:\n        return\n    self._busy = True\n    try:\n        self.go(m)\n    finally:\n        self._busy = False\n").body[0]
+    if [c[2] for c in _guard_flag_sites([(None, probe)])] != ["self._busy"] or _guard_flag_sites([(None, good)]):
+        raise AnalysisError(f"{rep.pid}.{rid}: the guard-flag detector does not recognise its positive/negative examples")
+    funcs = [(fi, fi.node) for fi in idx.all_funcs("csvpath/")]
+    sites = _guard_flag_sites(funcs)
+    for fi, node, k, st in sites:
+        rep.fail(rid, f"{fi.file}::{fi.qual} guard flag {k} is not cleared in a finally", f"the function returns early while `{k}` is set, sets it around its work and clears it afterwards: "
+                 "an exception in the work leaves it set, and every later call on the object silently does nothing", where(fi, st))
+    rep.check(not sites and len(funcs) > 1000, rid, "csvpath::no guard flag is left set by an exception", f"{len(funcs)} functions scanned, {len(sites)} unprotected guard flags", "csvpath/")
